@@ -36,7 +36,7 @@ type C20Op struct {
 	// K: 0 source sends an event, 1 consumer receives one, 2 consumer calls Stop, 3 source closes its channel
 	K       int    `json:"k"`
 	Type    string `json:"type,omitempty"`
-	Payload int    `json:"payload,omitempty"` // 0..2 a StatefulSet variant, 3 *metav1.Status, 4 bookmark-style set (only resourceVersion)
+	Payload int    `json:"payload,omitempty"` // 0..2 a StatefulSet variant, 3 *metav1.Status, 4 bookmark-style set (only resourceVersion), 5 bookmark with the initial-events-end annotation, 6 a set with metadata, annotations and status filled in
 }
 
 type C20Case struct {
@@ -71,9 +71,11 @@ func genC20(rt *rapid.T) C20Case {
 			case "ERROR":
 				o.Payload = 3
 			case "BOOKMARK":
-				o.Payload = 4
+				// a bookmark carries a resourceVersion, possibly annotations (the API server marks the end of the initial
+				// events of a watch-list with one), and nothing forbids a full object
+				o.Payload = rapid.SampledFrom([]int{4, 4, 5, 5, 6, 1}).Draw(rt, "bookmarkPayload")
 			default:
-				o.Payload = rapid.IntRange(0, 2).Draw(rt, "payload")
+				o.Payload = rapid.SampledFrom([]int{0, 1, 2, 6}).Draw(rt, "payload")
 			}
 		}
 		c.Ops = append(c.Ops, o)
@@ -117,6 +119,16 @@ func c20Payload(i int) k8sruntime.Object {
 		return &metav1.Status{Status: metav1.StatusFailure, Reason: metav1.StatusReasonGone, Code: 410, Message: "too old resource version"}
 	case 4:
 		return &asv1.StatefulSet{ObjectMeta: metav1.ObjectMeta{ResourceVersion: "12345"}}
+	case 5:
+		return &asv1.StatefulSet{ObjectMeta: metav1.ObjectMeta{ResourceVersion: "12346", Annotations: map[string]string{"k8s.io/initial-events-end": "true"}}}
+	case 6:
+		s := baseSet(NS, "web-rich", 3)
+		s.ResourceVersion, s.Generation, s.UID = "777", 4, "uid-rich"
+		s.Labels = map[string]string{"team": "db"}
+		s.Annotations = map[string]string{"delete-slots": "[1]", "note": "x"}
+		s.Finalizers = []string{"example.com/hold"}
+		s.Status = asv1.StatefulSetStatus{ObservedGeneration: 4, Replicas: 3, ReadyReplicas: 2, CurrentRevision: "web-rich-1", UpdateRevision: "web-rich-2"}
+		return s
 	}
 	s := baseSet(NS, fmt.Sprintf("web-%d", i), int32(i))
 	s.ResourceVersion = fmt.Sprint(100 + i)
